@@ -752,7 +752,7 @@ def run_anytime(st):
         final, readings = one(np.inf)
         R = readings            # readings 1..R are the limit tests (reading 0 is the start time)
         t["R"] = R
-        for c in range(1, R + 1):
+        for c in ([] if st.get("final_only") else range(1, R + 1)):
             r, _ = one(c - 0.5)
             t["cuts"].append(r)
         t["cuts"].append(final)
@@ -784,9 +784,11 @@ def run_anytime(st):
 def run_ilp(st):
     """st: {vals, k, o, kp, copies: [..], copies_scalar: bool, w: [..] or None, cons, c, inject} -> one-call trace"""
     vals, k = st["vals"], st["k"]
-    items, valueof, back = present(vals, "dict")
-    names = list(items.keys())
+    fmt = st.get("fmt", "dict")
+    items, valueof, back = present(vals, fmt)
     t = dict(st)
+    t["fmt"] = fmt
+    t["lvals"] = []
     t["wgiven"] = 1 if st.get("w") else 0
     t["w"] = list(st["w"]) if st.get("w") else [1] * k
     t["inject"] = st.get("inject") or ""
@@ -795,7 +797,7 @@ def run_ilp(st):
     if st.get("copies_scalar"):
         kw["copies"] = cp[0]
     else:
-        kw["copies"] = {i: cp[i] for i in range(len(cp))}       # the code indexes copies by item position
+        kw["copies"] = list(cp)       # per item, in the order of the items (as in examples/maximin_share_demo.py)
     if st.get("w"):
         kw["weights"] = list(st["w"])
     c = st.get("c", 0)
@@ -815,6 +817,12 @@ def run_ilp(st):
         finally:
             signal.alarm(0)
         t.update(norm_pst(ret, vals, back))
+        if fmt == "list":
+            lv = [[exact_int(x) for x in b] for b in ret[1]]
+            t["lvals"] = [[(-1 if x is None else x) for x in b] for b in lv]
+            t["lists"] = [[] for _ in lv]
+        else:
+            t["lvals"] = [[] for _ in t["lists"]]
     except Watchdog:
         t.update(empty_result("timeout"))
     except Exception as e:
@@ -999,3 +1007,24 @@ def run_big_group(g):
                     objs.append(ev)
     vl, _ = _limb_seq(vals)
     return {"vals": vl, "rawvals": [str(v) for v in vals], "k": k, "res": res, "objs": objs}
+
+
+def replay_cbldm(rec):
+    """rec: emitted by CBLDM.tla (vals, d, best, calls)"""
+    vals, d = rec["vals"], rec["d"]
+    ids = list(range(1, len(vals) + 1))
+    key = {"vals": vals, "d": d}
+    clock = CountingClock()
+    saved = _cbldm_mod.time
+    _cbldm_mod.time = clock
+    try:
+        B = prtpy.BinnerKeepingContents(lambda i: vals[i - 1])
+        ret = _cbldm_mod.cbldm(B, 2, ids, partition_difference=d)
+        r = _pst_ids(ret)
+        got = r["lists"] if r["out"] == "ret" else ([] if r["out"] == "none" else ["BAD"])
+    except Exception as e:
+        got = ["EXC " + type(e).__name__]
+    finally:
+        _cbldm_mod.time = saved
+    return [{"label": "cbldm.partition_differs_from_model", "m": rec["best"], "c": got, "key": key},
+            {"label": "cbldm.number_of_recursive_calls_differs_from_model", "m": rec["calls"], "c": clock.n, "key": key}]
